@@ -337,3 +337,124 @@ func (cf *ctxFlowT) flow(fn *ssa.Function) *mustResult {
 func (cf *ctxFlowT) at(i ssa.Instruction) (facts, bool) {
 	return cf.flow(i.Parent()).at(i)
 }
+
+// helperClosure: fn, the function literals defined in it, and — up to depth
+// levels — the unexported module functions it calls statically ("helpers": a
+// block extracted into a function of its own must not change a verdict).
+// Exported functions and methods are never treated as helpers.
+func helperClosure(fn *ssa.Function, depth int) []*ssa.Function {
+	seen := map[*ssa.Function]bool{}
+	var out []*ssa.Function
+	var rec func(f *ssa.Function, d int)
+	rec = func(f *ssa.Function, d int) {
+		if f == nil || seen[f] || f.Blocks == nil {
+			return
+		}
+		seen[f] = true
+		out = append(out, f)
+		for _, a := range f.AnonFuncs {
+			rec(a, d)
+		}
+		if d == 0 {
+			return
+		}
+		allInstrs(f, func(i ssa.Instruction) {
+			c, ok := i.(ssa.CallInstruction)
+			if !ok {
+				return
+			}
+			cal := staticCallee(c)
+			if cal == nil || !inModule(cal) || cal.Synthetic != "" {
+				return
+			}
+			name := cal.Name()
+			if cal.Parent() == nil && (name == "" || strings.ToUpper(name[:1]) == name[:1]) {
+				return
+			}
+			rec(cal, d-1)
+		})
+	}
+	rec(fn, depth)
+	return out
+}
+
+// deepInstrs visits the instructions of fn and of its helper closure.
+func deepInstrs(fn *ssa.Function, depth int, f func(ssa.Instruction)) {
+	for _, g := range helperClosure(fn, depth) {
+		allInstrs(g, f)
+	}
+}
+
+// isHelperOf: g belongs to the helper closure of fn.
+func isHelperOf(g, fn *ssa.Function, depth int) bool {
+	for _, h := range helperClosure(fn, depth) {
+		if h == g {
+			return true
+		}
+	}
+	return false
+}
+
+// mustFlowDeep: like mustFlow, but a call of a helper (unexported module
+// function) contributes the facts that the helper establishes on all of its
+// return paths (computed with the same gen, from an empty entry; depth-limited).
+func mustFlowDeep(fn *ssa.Function, entry facts, gen func(facts, ssa.Instruction) facts,
+	edgeGen func(f facts, b *ssa.BasicBlock, succ int) facts) *mustResult {
+	cache := map[*ssa.Function]facts{}
+	busy := map[*ssa.Function]bool{}
+	var deep func(depth int) func(facts, ssa.Instruction) facts
+	var summary func(cal *ssa.Function, depth int) facts
+	summary = func(cal *ssa.Function, depth int) facts {
+		if s, ok := cache[cal]; ok {
+			return s
+		}
+		if busy[cal] || depth <= 0 {
+			return facts{}
+		}
+		busy[cal] = true
+		defer delete(busy, cal)
+		r := mustFlow(cal, facts{}, deep(depth-1), edgeGen)
+		var acc facts
+		first := true
+		for _, ret := range returnsOf(cal) {
+			f, ok := r.at(ret)
+			if !ok {
+				continue
+			}
+			if first {
+				acc, first = f, false
+			} else {
+				acc = factsLattice.join(acc, f)
+			}
+		}
+		if acc == nil {
+			acc = facts{}
+		}
+		cache[cal] = acc
+		return acc
+	}
+	deep = func(depth int) func(facts, ssa.Instruction) facts {
+		return func(f facts, i ssa.Instruction) facts {
+			if gen != nil {
+				f = gen(f, i)
+			}
+			c, ok := i.(*ssa.Call)
+			if !ok {
+				return f
+			}
+			cal := staticCallee(c)
+			if cal == nil || !inModule(cal) || cal.Blocks == nil || cal.Synthetic != "" {
+				return f
+			}
+			name := cal.Name()
+			if cal.Parent() == nil && (name == "" || strings.ToUpper(name[:1]) == name[:1]) {
+				return f
+			}
+			if s := summary(cal, depth); len(s) > 0 {
+				f = f.with(s.list()...)
+			}
+			return f
+		}
+	}
+	return mustFlow(fn, entry, deep(2), edgeGen)
+}
